@@ -1,6 +1,7 @@
 package main
 
 import (
+	"os"
 	"fmt"
 	"strings"
 	"go/types"
@@ -211,6 +212,9 @@ func (E *Engine) atLoopHead(m *Machine, f *Frame, l *Loop, from, head *ssa.Basic
 		E.Run(mp, func(pe pathEnd) {})
 		E.probing--
 		E.Obls = E.Obls[:saveObl]
+		if os.Getenv("GVC_TRACE") != "" {
+			fmt.Fprintf(os.Stderr, "PROBE %s: cells=%v G=%v\n", lname, log.Cells, log.G)
+		}
 	}
 	if m.W != nil {
 		for c := range log.Cells {
@@ -222,6 +226,7 @@ func (E *Engine) atLoopHead(m *Machine, f *Frame, l *Loop, from, head *ssa.Basic
 	}
 	// havoc
 	maxCell := E.ncellAt(m)
+	ctx.MaxCell = maxCell
 	for c := range log.Cells {
 		if c > maxCell {
 			continue
@@ -265,6 +270,58 @@ func (E *Engine) atLoopHead(m *Machine, f *Frame, l *Loop, from, head *ssa.Basic
 			name = ph.Name()
 		}
 		f.Env[ph] = m.symbolicValue(ph.Type(), sanitize(lname)+"_"+name)
+	}
+	// second probe, from the havocked (symbolic) state: an iteration may write more than the first probe saw from the concrete entry
+	// state (e.g. appending a pointer to a symbolic slice flushes the object into the symbolic heap arrays)
+	{
+		log2 := &WriteLog{Cells: map[int]bool{}, G: map[string]bool{}}
+		mp := m.Clone()
+		mp.W = log2
+		mp.Stop = &StopAt{Depth: depth, Loop: l}
+		mp.Probe = true
+		saveObl := len(E.Obls)
+		E.probing++
+		func() {
+			defer func() {
+				if r := recover(); r != nil {
+					if _, isUnsupp := r.(unsupportedErr); !isUnsupp {
+						if _, isSpec := r.(specErr); !isSpec {
+							panic(r)
+						}
+					}
+				}
+			}()
+			E.Run(mp, func(pe pathEnd) {})
+		}()
+		E.probing--
+		E.Obls = E.Obls[:saveObl]
+		for c := range log2.Cells {
+			if log.Cells[c] || c > maxCell {
+				continue
+			}
+			if old, ok := m.Heap[c]; ok {
+				m.Heap[c] = m.havocLike(old, fmt.Sprintf("%s_c%d", sanitize(lname), c))
+				log.Cells[c] = true
+				if m.W != nil {
+					m.W.Cells[c] = true
+				}
+			}
+		}
+		for g := range log2.G {
+			if log.G[g] {
+				continue
+			}
+			if old := m.G[g]; old != nil {
+				m.G[g] = E.D.Fresh(sanitize(g)+"_"+sanitize(lname), old.Sort)
+				if g == "bank" {
+					m.bankNonNeg(m.G[g])
+				}
+			}
+			log.G[g] = true
+			if m.W != nil {
+				m.W.G[g] = true
+			}
+		}
 	}
 	ctx.Havocked = log
 	ctx.HeadHeapSnap = copyHeap(m.Heap)
